@@ -2,6 +2,10 @@
 let show_zz = show_pair show_z show_z
 let show_pt (x, y) = "(" ^ show_z x ^ " " ^ show_z y ^ ")"
 let arg_optbytes t = if t = "N" then None else Some (arg_bytes t)
+let blob_of k d =
+  { ba_kind = (match arg_int k with 0 -> Bk_bytes | 1 -> Bk_bytearray | 2 -> Bk_mv_ro | _ -> Bk_mv_rw); ba_data = arg_bytes d }
+let int_of_k k v =
+  { ia_kind = (match arg_int k with 0 -> Ik_int | 1 -> Ik_subclass | _ -> Ik_bool); ia_val = arg_z v }
 let dispatch f args = match f, args with
   | "sigencode_der", [r; s] -> show_outcome show_bytes (sigencode_der (arg_z r) (arg_z s))
   | "sigdecode_der", [b; br] -> show_outcome show_zz (sigdecode_der (arg_bytes b) (arg_bool br))
@@ -24,6 +28,16 @@ let dispatch f args = match f, args with
       let k = (match arg_int kind with 0 -> Pr_tuple | 1 -> Pr_list | _ -> Pr_point (arg_z cp, arg_z ca, arg_z cb)) in
       let o t = if t = "N" then None else Some (arg_z t) in
       show_outcome show_pt (key_public_arg (arg_z p) (arg_z a) (arg_z b) { pa_kind = k; pa_x = o x; pa_y = o y })
+  | "sec_to_public_pair_arg", [p; a; b; k; sec; strict] ->
+      show_outcome show_pt (sec_to_public_pair_arg (arg_z p) (arg_z a) (arg_z b) (blob_of k sec) (arg_bool strict))
+  | "key_from_sec_arg", [p; a; b; k; sec] ->
+      show_outcome (show_pair show_pt show_bool) (key_from_sec_arg (arg_z p) (arg_z a) (arg_z b) (blob_of k sec))
+  | "is_sec_compressed_arg", [k; sec] -> show_bool (is_sec_compressed_arg (blob_of k sec))
+  | "sigdecode_der_arg", [k; b; br] -> show_outcome show_zz (sigdecode_der_arg (blob_of k b) (arg_bool br))
+  | "key_private_arg", [n; k; e] -> show_outcome show_z (key_private_arg (arg_z n) (int_of_k k e))
+  | "sigencode_der_arg", [k1; r; k2; s] -> show_outcome show_bytes (sigencode_der_arg (int_of_k k1 r) (int_of_k k2 s))
+  | "public_pair_to_sec_arg", [k1; x; k2; y; c] ->
+      show_outcome show_bytes (public_pair_to_sec_arg (int_of_k k1 x) (int_of_k k2 y) (arg_bool c))
   | "key_private", [n; e] -> show_outcome show_z (key_private (arg_z n) (arg_z e))
   | "wif_payload", [pre; se; c] -> show_outcome show_bytes (wif_payload (arg_bytes pre) (arg_z se) (arg_bool c))
   | "parse_wif_payload", [pre; n; d] ->
